@@ -47,7 +47,7 @@ func init() {
 	register("C09", "P-dec", nil, rule{name: "P-dec", run: rulePDec}, rule{name: "ACC", run: ruleACC}, rule{name: "L-fresh", run: ruleLFresh})
 	register("C14", "P-insp", nil, rule{name: "P-insp", run: rulePInsp}, rule{name: "T-tmpl", run: ruleTTmplScripts})
 	register("C16", "P-json", nil, rule{name: "P-json", run: rulePJSON}, rule{name: "FLOAT", run: ruleFloat}, rule{name: "T-dto", run: ruleTDto}, rule{name: "T-dto", run: ruleTDtoOnce}, rule{name: "L-fresh", run: ruleLFresh})
-	register("C13", "T-push T-nm", nil, rule{name: "P-codec", run: rulePCodec}, rule{name: "T-push", run: ruleTPush}, rule{name: "T-nm", run: ruleTNm}, rule{name: "T-op1", run: ruleTOp}, rule{name: "ACC-parse", run: ruleACCParse}, rule{name: "T-asm", run: ruleTAsm}, rule{name: "S-canon", run: ruleSCanon})
+	register("C13", "T-push T-nm", nil, rule{name: "P-codec", run: rulePCodec}, rule{name: "T-push", run: ruleTPush}, rule{name: "T-nm", run: ruleTNm}, rule{name: "T-op1", run: ruleTOp}, rule{name: "ACC-parse", run: ruleACCParse}, rule{name: "T-asm", run: ruleTAsm}, rule{name: "S-canon", run: ruleSCanon}, rule{name: "W-enc", run: ruleWEnc})
 	register("C01", "W-tx T-vi ACC", nil, rule{name: "W-tx", run: ruleWTx}, rule{name: "W-rd", run: ruleWRd}, rule{name: "T-vi", run: ruleTVi}, rule{name: "ACC", run: ruleACC})
 	register("C17", "T-fmt S-disp", nil, rule{name: "T-fmt", run: ruleTFmt}, rule{name: "S-disp", run: ruleSDisp})
 	register("C15", "S-chk T-ver", nil, rule{name: "S-chk", run: ruleSChk}, rule{name: "T-ver", run: ruleTVer}, rule{name: "T-tmpl", run: func(c *Ctx) { ruleTTmplOnly(c, map[string]bool{"IsP2PKH": true}) }}, rule{name: "S-carry", run: ruleSCarry}, rule{name: "W-addr", run: ruleWAddr})
